@@ -1871,6 +1871,67 @@ func init() {
 	})
 }
 
+// unwrapDerived: the expression's root identifier was produced by types.UnwrapType — in this function, or, for a
+// parameter, at every call site of the function.
+func unwrapDerived(c *Ctx, f *Fn, e ast.Expr, depth int) bool {
+	info := f.Info()
+	// strip calls such as dereferenceType(x)
+	for {
+		cl, ok := ast.Unparen(e).(*ast.CallExpr)
+		if !ok || len(cl.Args) != 1 {
+			break
+		}
+		if g := callee(info, cl); g != nil && g.Name() == "UnwrapType" {
+			return true
+		}
+		e = cl.Args[0]
+	}
+	id, ok := ast.Unparen(e).(*ast.Ident)
+	if !ok {
+		return false
+	}
+	o := info.Uses[id]
+	if o == nil {
+		return false
+	}
+	for _, d := range localDefs(f)[o] {
+		found := false
+		ast.Inspect(d, func(y ast.Node) bool {
+			if cl, ok := y.(*ast.CallExpr); ok {
+				if g := callee(info, cl); g != nil && g.Name() == "UnwrapType" {
+					found = true
+				}
+			}
+			return true
+		})
+		if found {
+			return true
+		}
+	}
+	if depth >= 1 || !isParamOf(f, o) {
+		return false
+	}
+	sig := f.Obj.Type().(*types.Signature)
+	pi := -1
+	for i := 0; i < sig.Params().Len(); i++ {
+		if sig.Params().At(i) == o {
+			pi = i
+		}
+	}
+	sites, derived := 0, 0
+	for _, caller := range c.AllFns(relOf(f.Obj.Pkg().Path())) {
+		for _, cl := range callsIn(caller.Decl.Body, true) {
+			if isCallTo(caller.Info(), cl, f.Obj) && pi < len(cl.Args) {
+				sites++
+				if unwrapDerived(c, caller, cl.Args[pi], depth+1) {
+					derived++
+				}
+			}
+		}
+	}
+	return sites > 0 && derived == sites
+}
+
 func c03R11(c *Ctx, r *Report) {
 	const rule = "C03.R11"
 	r.Describe(rule, "typechecker.checkBinaryExpr: the case clauses of -,*,/,% · &,|,^ · ==,!= · <,<=,>,>= each contain a report guarded by a type-equality test of the two operands (directly or through a same-package helper)")
@@ -1890,8 +1951,12 @@ func c03R11(c *Ctx, r *Report) {
 			eq := false
 			ast.Inspect(ifs.Cond, func(y ast.Node) bool {
 				if cl, ok := y.(*ast.CallExpr); ok {
-					if sel, ok := ast.Unparen(cl.Fun).(*ast.SelectorExpr); ok && sel.Sel.Name == "Equals" {
-						eq = true
+					if sel, ok := ast.Unparen(cl.Fun).(*ast.SelectorExpr); ok && sel.Sel.Name == "Equals" && len(cl.Args) == 1 {
+						// the declared types must be compared: an operand that went through types.UnwrapType has
+						// lost its name (Meters and Feet both become i32)
+						if !unwrapDerived(c, f, sel.X, 0) && !unwrapDerived(c, f, cl.Args[0], 0) {
+							eq = true
+						}
 					}
 				}
 				return true
@@ -2765,7 +2830,7 @@ func init() {
 
 func c01R14(c *Ctx, r *Report) {
 	const rule = "C01.R14"
-	r.Describe(rule, "collector.isIntrinsicBuiltin's case list = the string cases of the builtin switch in mir/gen lowerCall")
+	r.Describe(rule, "collector.isIntrinsicBuiltin's case list = the string cases of the builtin switch in mir/gen lowerCall = the cases of typechecker.checkBuiltinCallExpr")
 	isb := c.LookupFn("internal/semantics/collector", "isIntrinsicBuiltin")
 	lc := c.LookupFn(pkgMIRGen, "(*functionBuilder).lowerCall")
 	if !r.Anchor(rule, isb != nil && lc != nil, "collector.isIntrinsicBuiltin / mir/gen lowerCall") {
@@ -2787,11 +2852,20 @@ func c01R14(c *Ctx, r *Report) {
 		return out
 	}
 	coll, low := strCases(isb), strCases(lc)
+	// the type checker routes calls of intrinsic builtins to checkBuiltinCallExpr, which must know each of them
+	tc := map[string]bool{}
+	cbc := c.LookupFn(pkgTC, "checkBuiltinCallExpr")
+	if r.Anchor(rule, cbc != nil, "typechecker.checkBuiltinCallExpr") {
+		tc = strCases(cbc)
+	}
 	names := map[string]bool{}
 	for k := range coll {
 		names[k] = true
 	}
 	for k := range low {
+		names[k] = true
+	}
+	for k := range tc {
 		names[k] = true
 	}
 	keys := make([]string, 0, len(names))
@@ -2802,6 +2876,10 @@ func c01R14(c *Ctx, r *Report) {
 	for _, k := range keys {
 		r.Check(coll[k] && low[k], rule, "builtin "+k, "marked intrinsic by the collector and lowered as an intrinsic", c.pos(isb.Decl.Pos()),
 			fmt.Sprintf("builtin %q: collector intrinsic=%v, MIR intrinsic=%v — a builtin the collector treats as an ordinary extern is called by its plain name, which no runtime defines (`panic(\"boom\")` fails to link: undefined reference to panic)", k, coll[k], low[k]))
+		if cbc != nil {
+			r.Check(tc[k], rule, "builtin "+k, "calls are type-checked by checkBuiltinCallExpr", c.pos(cbc.Decl.Pos()),
+				fmt.Sprintf("calls of the intrinsic %q reach checkBuiltinCallExpr, whose switch has no case for it: neither the number nor the types of the arguments are checked (`panic(n)` with n: i32 is accepted)", k))
+		}
 	}
 	r.Floor(rule, len(keys), 3, "intrinsic builtins")
 }
